@@ -20,7 +20,7 @@ GEN = "CodecGen"
 STAGE1 = ["hdr12", "uhdr", "hshdr", "alert", "ack", "rrc", "inner", "plain12", "hs12", "str", "dgram12", "dgram13"]
 STAGE2 = ["msg"]
 STAGE3 = ["ext"]
-BROKEN = [("hdr12", "hdr_seq_reversed"), ("dgram12", "unpack_overread"), ("plain12", "plain_ignores_len"), ("hs12", "hs_any_offset")]
+BROKEN = [("hdr12", "hdr_seq_reversed"), ("dgram12", "unpack_overread"), ("dgram12", "unpack_min1"), ("plain12", "plain_ignores_len"), ("hs12", "hs_any_offset")]
 
 
 def run_batches(chk, binary, test, rows, wd, tag, env=None):
